@@ -177,7 +177,9 @@ func emptyStringTest(m dsl.Matcher) {
 //doc:before  copy(b, []byte(s))
 //doc:after   copy(b, s)
 func stringXbytes(m dsl.Matcher) {
-	m.Match(`copy($_, []byte($s))`).Report("can simplify `[]byte($s)` to `$s`")
+	m.Match(`$copy($_, []byte($s))`).
+		Where(m["copy"].Text == "copy" && m["copy"].Object.Is(`Builtin`)).
+		Report("can simplify `[]byte($s)` to `$s`")
 
 	m.Match(`string($b) == ""`).Where(m["b"].Type.Is(`[]byte`)).Suggest(`len($b) == 0`)
 	m.Match(`string($b) != ""`).Where(m["b"].Type.Is(`[]byte`)).Suggest(`len($b) != 0`)
@@ -297,7 +299,9 @@ func badCall(m dsl.Matcher) {
 		Where(m["zero"].Value.Int() == 0).
 		Report(`suspicious arg 0, probably meant -1`).At(m["zero"])
 
-	m.Match(`append($_)`).Report(`no-op append call, probably missing arguments`)
+	m.Match(`$append($_)`).
+		Where(m["append"].Text == "append" && m["append"].Object.Is(`Builtin`)).
+		Report(`no-op append call, probably missing arguments`)
 
 	m.Match(`filepath.Join($_)`).Report(`suspicious Join on 1 argument`)
 }
@@ -377,12 +381,19 @@ func preferFprint(m dsl.Matcher) {
 //doc:before  copy(dst, dst)
 //doc:after   copy(dst, src)
 func dupArg(m dsl.Matcher) {
+	m.Import(`cmp`)
+	m.Import(`maps`)
+	m.Import(`slices`)
+
 	m.Match(`$x.Equal($x)`, `$x.Equals($x)`, `$x.Compare($x)`, `$x.Cmp($x)`).
 		Where(m["x"].Pure).
 		Report(`suspicious method call with the same argument and receiver`)
 
-	m.Match(`copy($x, $x)`,
-		`cmp.Compare($x, $x)`,
+	m.Match(`$copy($x, $x)`).
+		Where(m["x"].Pure && m["copy"].Text == "copy" && m["copy"].Object.Is(`Builtin`)).
+		Report(`suspicious duplicated args in $$`)
+
+	m.Match(`cmp.Compare($x, $x)`,
 		`maps.Equal($x, $x)`,
 		`math.Dim($x, $x)`,
 		`math.Max($x, $x)`,
@@ -467,8 +478,8 @@ func preferStringWriter(m dsl.Matcher) {
 //doc:before  for i := 0; i < len(buf); i++ { buf[i] = 0 }
 //doc:after   for i := range buf { buf[i] = 0 }
 func sliceClear(m dsl.Matcher) {
-	m.Match(`for $i := 0; $i < len($xs); $i++ { $xs[$i] = $zero }`).
-		Where(m["zero"].Value.Int() == 0).
+	m.Match(`for $i := 0; $i < $len($xs); $i++ { $xs[$i] = $zero }`).
+		Where(m["zero"].Value.Int() == 0 && m["len"].Text == "len" && m["len"].Object.Is(`Builtin`)).
 		Report(`rewrite as for-range so compiler can recognize this pattern`)
 }
 
